@@ -4,6 +4,8 @@
 -/
 import Proofs.C04_Lemmas
 import Proofs.C04_Reps
+import Proofs.C04_Index
+import Proofs.C04_Count
 import Mathlib.Tactic.Ring
 import Mathlib.Tactic.Linarith
 import Mathlib.Tactic.Positivity
@@ -11,6 +13,7 @@ import Mathlib.Tactic.NormNum
 import Mathlib.Algebra.Order.Field.Basic
 import Mathlib.Data.Int.Cast.Lemmas
 import Mathlib.Algebra.Order.Ring.Cast
+import Mathlib.Data.Rat.Floor
 
 namespace Atomman.C04
 open Atomman
@@ -120,19 +123,8 @@ theorem replicaPos_eq (b : Box K) (sa sb sc : Size) (p : V3 K) (r0 r1 r2 : Nat)
     (ha : ((sa.mult : Int) : K) ≠ 0) (hb : ((sb.mult : Int) : K) ≠ 0) (hc : ((sc.mult : Int) : K) ≠ 0) :
     replicaPos b sa sb sc p r0 r1 r2
       = p + M3.vecMul ⟨(((r0 : Int) + sa.lo : Int) : K), (((r1 : Int) + sb.lo : Int) : K),
-                        (((r2 : Int) + sc.lo : Int) : K)⟩ b.vects := by
-  have hp := relToCart_cartToRel b hdet p
-  unfold replicaPos
-  generalize b.cartToRel p = s at hp ⊢
-  subst hp
-  obtain ⟨⟨⟨v00, v01, v02⟩, ⟨v10, v11, v12⟩, ⟨v20, v21, v22⟩⟩, ⟨o0, o1, o2⟩⟩ := b
-  obtain ⟨s0, s1, s2⟩ := s
-  simp only [superBox, Box.relToCart, M3.vecMul, V3.smul, V3.add_def, Int.cast_add, Int.cast_natCast,
-      Int.cast_one]
-  generalize ((sa.mult : Int) : K) = ma at ha ⊢
-  generalize ((sb.mult : Int) : K) = mb at hb ⊢
-  generalize ((sc.mult : Int) : K) = mc at hc ⊢
-  ext <;> simp only [] <;> field_simp <;> ring
+                        (((r2 : Int) + sc.lo : Int) : K)⟩ b.vects :=
+  replicaPos_eq_aux b sa sb sc p r0 r1 r2 hdet ha hb hc
 
 omit [LinearOrder K] [IsStrictOrderedRing K] in
 /-- the volume (signed) scales by the replication count. -/
@@ -283,9 +275,111 @@ theorem rotate_distinct (nb : Box K) (hdet : M3.det nb.vects ≠ 0) (p q : V3 K)
   rw [hpq, zx, zy, zz]
   ext <;> simp [M3.vecMul]
 
+
+/-! ### rotate: each original atom is represented exactly `|det U|` times -/
+
+section count
+variable [FloorRing K]
+
+/-- **Index of the sublattice.**  For an integer matrix `U` with `det U ≠ 0` and any offset `s`, exactly
+    `|det U|` integer shifts `n` put the point `s + n` (old-cell units) into the half-open cell of the new
+    lattice `ℤ³·U`: the half-open cell is a complete irredundant system of representatives of `ℤ³/ℤ³·U`,
+    whose order is `|det U|` (Mathlib `Submodule.natAbs_det_equiv`). -/
+theorem rotate_lattice_index (U : M3 Int) (hU : M3.det U ≠ 0) (s : V3 K) :
+    Nat.card {n : V3 Int // Rep U s n} = (M3.det U).natAbs :=
+  rep_card U hU s
+
+/-- **Each original atom is represented exactly `|det U|` times in the re-oriented cell.**
+    For a non-degenerate box, an integer `U` with `det U ≠ 0`, `fl` the floor function and every atom inside
+    the box (`0 ≤ s < 1`), the atoms kept by `rotate` are — up to order — the concatenation over the original
+    atoms `a` of `imagesOf a` (what `rotate` returns for the one-atom system `[a]`), where `imagesOf a`
+    * has exactly `|det U|` members,
+    * at pairwise different positions,
+    * each with `a`'s type and per-atom values at `a.pos` + an integer combination of the old cell vectors,
+      inside the new half-open cell,
+    * and contains *every* periodic image `a.pos + n·V`, `n ∈ ℤ³`, that lies in the new half-open cell
+      (the bounding supercell `corners ∓ 1` misses none). -/
+theorem rotate_count (fl : K → Int) (hfl : ∀ x, fl x = ⌊x⌋) (b : Box K) (hV : M3.det b.vects ≠ 0) (U : M3 Int)
+    (atoms : List (Atom K)) (hin : ∀ a ∈ atoms, InCell (b.cartToRel a.pos)) (nb : Box K) (kept : List (Atom K))
+    (h : rotateRaw fl b U atoms = some (nb, kept)) :
+    kept.Perm (atoms.flatMap (imagesOf fl b U)) ∧
+    ∀ a ∈ atoms,
+      rotateRaw fl b U [a] = some (nb, imagesOf fl b U a) ∧
+      (imagesOf fl b U a).length = (M3.det U).natAbs ∧
+      ((imagesOf fl b U a).map (·.pos)).Nodup ∧
+      (∀ a' ∈ imagesOf fl b U a, a'.atype = a.atype ∧ a'.extra = a.extra ∧ InCell (nb.cartToRel a'.pos) ∧
+        ∃ n : V3 Int, a'.pos = a.pos + M3.vecMul (castV n) b.vects) ∧
+      (∀ n : V3 Int, InCell (nb.cartToRel (a.pos + M3.vecMul (castV n) b.vects)) →
+        ∃ a' ∈ imagesOf fl b U a, a'.pos = a.pos + M3.vecMul (castV n) b.vects) := by
+  have hU : M3.det U ≠ 0 := by
+    intro h0; simp [rotateRaw, h0] at h
+  have hnb : nb = ⟨newVects U b.vects, ⟨0, 0, 0⟩⟩ := by
+    rw [rotateRaw_eq fl b U atoms hU] at h
+    simp only [Option.some.injEq, Prod.mk.injEq] at h
+    exact h.1.symm
+  refine ⟨rotateRaw_perm fl b U atoms nb kept h, fun a ha => ?_⟩
+  have hs := rotateRaw_singleton fl b U a hU
+  rw [← hnb] at hs
+  refine ⟨hs, imagesOf_length fl hfl b hV U hU a (hin a ha), imagesOf_nodup fl hfl b hV U a, ?_, ?_⟩
+  · intro a' ha'
+    obtain ⟨a0, ha0, n, e1, e2, e3⟩ := rotate_members fl b U [a] nb _ hV hs a' ha'
+    rw [List.mem_singleton] at ha0
+    subst ha0
+    exact ⟨e1, e2, (rotate_inside fl b U [a0] nb _ hs a' ha').2, n, e3⟩
+  · intro n hq
+    rw [hnb] at hq
+    obtain ⟨a', m, e, _⟩ := imagesOf_complete fl hfl b hV U hU a (hin a ha) n hq
+    exact ⟨a', m, e⟩
+
+/-- **Atom count** `natoms · |det U|` — the code's own expected-count test
+    (`newnatoms = round(newvolume / volume) · natoms`) always passes. -/
+theorem rotate_total (fl : K → Int) (hfl : ∀ x, fl x = ⌊x⌋) (b : Box K) (hV : M3.det b.vects ≠ 0) (U : M3 Int)
+    (atoms : List (Atom K)) (hin : ∀ a ∈ atoms, InCell (b.cartToRel a.pos)) (nb : Box K) (kept : List (Atom K))
+    (h : rotateRaw fl b U atoms = some (nb, kept)) :
+    kept.length = (M3.det U).natAbs * atoms.length :=
+  rotateRaw_length fl hfl b hV U atoms hin nb kept h
+
+/-- with the expected-count test in the model: `rotate` never raises "Filtering failed" for atoms inside a
+    non-degenerate box, and returns what `rotateRaw` returns; the only refusal is `det U = 0`. -/
+theorem rotate_check_passes (fl : K → Int) (hfl : ∀ x, fl x = ⌊x⌋) (b : Box K) (hV : M3.det b.vects ≠ 0) (U : M3 Int)
+    (hU : M3.det U ≠ 0) (atoms : List (Atom K)) (hin : ∀ a ∈ atoms, InCell (b.cartToRel a.pos)) :
+    ∃ kept, rotateRaw fl b U atoms = some (⟨newVects U b.vects, ⟨0, 0, 0⟩⟩, kept) ∧
+      rotateChecked fl b U atoms = .ok (⟨newVects U b.vects, ⟨0, 0, 0⟩⟩, kept) ∧
+      kept.length = (M3.det U).natAbs * atoms.length := by
+  have h := rotateRaw_eq fl b U atoms hU
+  refine ⟨_, h, ?_, rotateRaw_length fl hfl b hV U atoms hin _ _ h⟩
+  unfold rotateChecked
+  rw [h]
+  simp only
+  rw [if_pos (rotateRaw_length fl hfl b hV U atoms hin _ _ h)]
+
+end count
+
+/-- the floor function the driver runs with is Mathlib's floor. -/
+theorem rat_floor_eq (x : ℚ) : Rat.floor x = ⌊x⌋ := rfl
+
+/-- the count for the executable model as the driver runs it (`K = ℚ`, `fl = Rat.floor`). -/
+theorem rotate_total_rat (b : Box ℚ) (hV : M3.det b.vects ≠ 0) (U : M3 Int)
+    (atoms : List (Atom ℚ)) (hin : ∀ a ∈ atoms, InCell (b.cartToRel a.pos)) (nb : Box ℚ) (kept : List (Atom ℚ))
+    (h : rotateRaw Rat.floor b U atoms = some (nb, kept)) :
+    kept.length = (M3.det U).natAbs * atoms.length :=
+  rotate_total Rat.floor rat_floor_eq b hV U atoms hin nb kept h
+
 /-! ### non-vacuity -/
 example : decode 2 3 2 (encode 2 3 2 1 2 1 4) = (1, 2, 1, 4) := by decide
 example : (supersizeAtoms (K := ℚ) ⟨M3.one, ⟨0, 0, 0⟩⟩ ⟨0, 2⟩ ⟨-1, 1⟩ ⟨0, 1⟩ [⟨1, ⟨0, 0, 0⟩, []⟩]).length = 4 := by
   rw [supersize_length]; decide
+
+
+/-- non-vacuity of `rotate_count` / `rotate_total` at `K = ℚ` with the driver's floor: fcc-like two-atom cubic cell,
+    `U = [[1,1,0],[-1,1,0],[0,0,1]]` (det 2), origin away from zero: 4 atoms are kept. -/
+example : ∃ nb kept, rotateRaw Rat.floor (⟨M3.one, ⟨-5/2, 7/4, 0⟩⟩ : Box ℚ) ⟨⟨1, 1, 0⟩, ⟨-1, 1, 0⟩, ⟨0, 0, 1⟩⟩
+    [⟨1, ⟨-5/2, 7/4, 0⟩, []⟩, ⟨2, ⟨-2, 9/4, 1/2⟩, [3]⟩] = some (nb, kept) ∧ kept.length = 4 := by
+  refine ⟨_, _, rfl, ?_⟩
+  decide +kernel
+example : (M3.det (⟨⟨1, 1, 0⟩, ⟨-1, 1, 0⟩, ⟨0, 0, 1⟩⟩ : M3 Int)).natAbs = 2 := by decide
+example : InCell ((⟨M3.one, ⟨-5/2, 7/4, 0⟩⟩ : Box ℚ).cartToRel ⟨-2, 9/4, 1/2⟩) := by
+  simp only [InCell, Box.cartToRel, Box.recip, M3.inv, M3.one, M3.transpose, M3.mulVec, M3.det, V3.dot, V3.cross]
+  norm_num
 
 end Atomman.C04
